@@ -808,7 +808,7 @@ Proof.
            match get_act w' id with
            | Some a' => match a_fut a' with
                         | AfPending => set_act_fut id (match r with Ok b => AfVal b | Err e => AfExn e end)
-                        | _ => raise EInvalidState
+                        | _ => ret tt
                         end
            | None => raise EIndex
            end)) Q w1).
@@ -827,7 +827,7 @@ Proof.
                                 match get_act w' id with
                                 | Some a' => match a_fut a' with
                                              | AfPending => set_act_fut id (match r with Ok b => AfVal b | Err e => AfExn e end)
-                                             | _ => raise EInvalidState
+                                             | _ => ret tt
                                              end
                                 | None => raise EIndex
                                 end)) Q s''
@@ -835,7 +835,7 @@ Proof.
                                 match get_act w' id with
                                 | Some a' => match a_fut a' with
                                              | AfPending => set_act_fut id (AfExn e)
-                                             | _ => raise EInvalidState
+                                             | _ => ret tt
                                              end
                                 | None => raise EIndex
                                 end)) Q s''
